@@ -109,6 +109,10 @@ M = [
     ("c03_torn_is_eof", "C03", "packet/stream.go", "\t\tif err == io.EOF && len(header) != 0 {\n\t\t\t// an EOF with some data is unexpected\n\t\t\treturn nil, io.ErrUnexpectedEOF\n\t\t} else if err != nil {", "\t\tif err != nil {"),
     ("c03_encoder_no_flush", "C03 C19", "packet/stream.go", "\t} else {\n\t\t_, err = e.writer.WriteAndFlush(buf)\n\t}", "\t} else {\n\t\t_, err = e.writer.Write(buf)\n\t}"),
     ("c03_close_no_flush", "C03 C19", "transport/base_conn.go", "\t// flush buffer\n\terr1 := c.stream.Flush()\n", "\t// flush buffer\n\tvar err1 error\n"),
+    # ---- C19
+    ("c19_no_close_on_recv_error", "C19", "transport/base_conn.go", "\tpkt, err := c.stream.Read()\n\tif err != nil {\n\t\t// ensure carrier gets closed\n\t\t_ = c.carrier.Close()\n", "\tpkt, err := c.stream.Read()\n\tif err != nil {\n"),
+    ("c19_close_keeps_carrier", "C19", "transport/base_conn.go", "\t// close carrier\n\terr2 := c.carrier.Close()\n", "\t// close carrier\n\tvar err2 error\n\tgo func() { time.Sleep(20 * time.Second); _ = c.carrier.Close() }()\n"),
+    ("c19_recv_error_flushes", "C19", "transport/base_conn.go", "\tpkt, err := c.stream.Read()\n\tif err != nil {\n\t\t// ensure carrier gets closed\n\t\t_ = c.carrier.Close()\n", "\tpkt, err := c.stream.Read()\n\tif err != nil {\n\t\t// ensure carrier gets closed\n\t\t_ = c.Close()\n"),
     # ---- C20
     ("c20_suback_reversed", "C20", "broker/client.go", "\t\tsuback.ReturnCodes[i] = subscription.QOS", "\t\tsuback.ReturnCodes[len(pkt.Subscriptions)-1-i] = subscription.QOS"),
     ("c20_ignore_unexpected", "C20 C14", "broker/client.go", "\tdefault:\n\t\terr = c.die(ClientError, ErrUnexpectedPacket)\n\t}\n\n\t// return eventual error", "\tdefault:\n\t}\n\n\t// return eventual error"),
